@@ -60,6 +60,10 @@ THEOREMS = [
     "Verif.C15.extraction_removed_flag",
     "Verif.C15.gradient_continuous_correct_amp",
     "Verif.C15.gradient_continuous_correct_tau",
+    "Verif.C15.gradient_discrete_correct_amp",
+    "Verif.C15.gradient_discrete_correct_tau",
+    "Verif.C15.jacobian_is_gradient_amp",
+    "Verif.C15.jacobian_is_gradient_tau",
 ]
 RULE = (
     "small scope (likelihood: 1-3 components on a grid of amplitudes in quarters and lifetimes in {0.1,1,10}, windows "
